@@ -27,6 +27,7 @@ DECIDES = (
     "(C20.GUARD-TABLE)."
     " LoftedShape refuses a list of mid sketches as soon as ONE of them has a different face count, wherever it stands; Cylinder.fill accepts exactly the segment count of its sketch's outer faces (parts of C20.GUARD-EVAL); raising upper-bound guards against a geometric magnitude compare a non-negative quantity, not the caller's raw signed number (C20.SIGNED-MAGNITUDE); what assemble() records on the mesh clear() resets (C20.LIFECYCLE-STATE = C12.CLEAR-COMPLETE)."
     ' Face(points, edges) rejects every edge list that does not have four entries, the empty one included; AwareFaceStore.is_disconnected is true as soon as one face is solitary (parts of C20.GUARD-EVAL).'
+    ' Guards whose message demands a strict relation reject the boundary (C20.MESSAGE-STRICTNESS); corner indexes of project_corner / project_edge / Face.project_edge, the axis of Operation.chop, NaN length ratios (parts of C20.GUARD-EVAL).'
 )
 NOT_DECIDED = "behaviour for inputs that no guard mentions; the numeric value of tolerances."
 ASSUMPTIONS = ["norm(), abs(), len() and squares are non-negative; point_to_plane_distance and friends are summarised from their own returns"]
